@@ -39,6 +39,24 @@ CHECKS = {
              "corroborates values. Held on the trees observed, with two recorded known findings.",
         note="Standard precedence table with lenient left-associative comparisons; SQLite semantics for value corroboration.",
         ref="DESIGN.md section 4 C06"),
+    "C09": dict(
+        technique="differential tokenisation isolates the row-limiting tail, matched against a per-dialect reference grammar; SQLite executes",
+        text="The complete product limit x offset x setter/call order x ORDER BY x embedding position x dialect x "
+             "{inline, parameterised} is rendered by the real builders; the tail must be the dialect's row-limiting clause with "
+             "the limit/offset sentinels in the right slots (through the placeholders when parameterised); SQLite statements are "
+             "executed on a 10-row table. Held on the full product, with recorded known findings for set-operation pagination "
+             "and TOP combined with OFFSET/FETCH.",
+        note="Reference tail grammars for MySQL/PostgreSQL/SQL Server/Oracle are the trusted base; SQLite is executed.",
+        ref="DESIGN.md section 4 C09"),
+    "C17": dict(
+        technique="direct contract monitors (eq/hash/set membership) over an exhaustive variant product; field/table collection vs construction",
+        text="All ordered pairs of 336 table variants and of builder/aliased-query/CTE/schema variants are checked for eq=>hash, "
+             "symmetry, !=, stability under rendering and set/dict membership vs linear search; sampled triples for "
+             "transitivity; fields_()/tables_ of generated expressions (every node kind, shared column names, all operand "
+             "orders) are compared with the references the expression was built from; consumer-level differentials (join, "
+             "RETURNING, star selection, foreign-table flag). Held on the executions observed.",
+        note="Hash collisions between unequal objects are legal and not flagged.",
+        ref="DESIGN.md section 4 C17"),
     "C15": dict(
         technique="runtime history monitor (C01) over objects duplicated by copy/deepcopy/pickle",
         text="Objects from call forests and fixed graphs (schema chains, NOT wrappers, CTEs, nested subqueries, set operations) "
